@@ -252,11 +252,12 @@ def linExp : Exp α → Req → M α (Ctx α)
     let b ← linExp r req.reversed
     pure (a.mergeSub b)
   | .bin .mul (.num c) r, req =>
-    if Arith.eq c zero then pure (Ctx.fromRhs zero) else do
+    -- fix 5a25b35: a factor that may be undefined is still lowered so that its error is reported
+    if Arith.eq c zero && !(Exp.mayBeUndefined r) then pure (Ctx.fromRhs zero) else do
       let x ← linExp r (req.throughScale c)
       pure (x.mulBy c)
   | .bin .mul l (.num c), req =>
-    if Arith.eq c zero then pure (Ctx.fromRhs zero) else do
+    if Arith.eq c zero && !(Exp.mayBeUndefined l) then pure (Ctx.fromRhs zero) else do
       let x ← linExp l (req.throughScale c)
       pure (x.mulBy c)
   | .bin .mul _ _, _ => fail .nonLinear
